@@ -270,5 +270,5 @@ let () =
    | ["lex-cases"; m; proj] -> lex_cases out (m = "np") proj
    | ["lex-exh"; a; n; m; p; f; proj; _] -> lex_exh out a (int_of_string n) (m = "np") (string_of_hex p) (int_of_string f) proj (-1)
    | ["lex-exh"; a; n; m; p; f; proj; _; v] -> lex_exh out a (int_of_string n) (m = "np") (string_of_hex p) (int_of_string f) proj (int_of_string v)
-   | _ -> prerr_endline "usage: driver <cmd>"; exit 2);
+   | args -> if not (Treedrv.run args) then (prerr_endline "usage: driver <cmd>"; exit 2));
   flush out
